@@ -287,11 +287,16 @@ def dir_member(path, level=2, os_type=ord('U'), mtime=1000000000, perms=None, ui
 
 
 def symlink_member(linkpath, target, level=2, mtime=1000000000, uidgid=None):
-    """A Unix symbolic link entry 'linkpath|target' (stored like a directory with link permissions)."""
-    i = linkpath.rfind(b'/')
-    path, name = (linkpath[:i + 1], linkpath[i + 1:]) if i >= 0 else (b'', linkpath)
-    m = simple_member(name + b'|' + target, b'', level=level, method=b'-lhd-', os_type=ord('U'), mtime=mtime,
+    """A Unix symbolic link entry.  As Unix LHA writes them: the string 'linkpath|target' is split at its *last* '/'
+    into the path part and the name part (so a target with slashes ends up partly in the path header)."""
+    full = linkpath + b'|' + target
+    i = full.rfind(b'/')
+    path, name = (full[:i + 1], full[i + 1:]) if i >= 0 else (b'', full)
+    m = simple_member(name, b'', level=level, method=b'-lhd-', os_type=ord('U'), mtime=mtime,
                       perms=0o120777, uidgid=uidgid, path=path)
+    if level >= 2 and not name:
+        # a target ending in '/' leaves no name part: keep the filename header out altogether
+        m['exts'] = [e for e in m['exts'] if e[0] != 1]
     return m
 
 
